@@ -325,9 +325,18 @@ def r3_text_equals_program(chk: Check):
                 ok = src(fn_.body.left) == pa and src(fn_.body.right) == pb
             elif dotted(fn_) in ("operator.and_", "and_", "operator.__and__"):
                 ok = True
+            elif isinstance(fn_, (ast.Name, ast.Attribute)):
+                # a named two-argument function that returns `a & b`
+                nm = fn_.id if isinstance(fn_, ast.Name) else fn_.attr
+                for ff in tree.nontest_funcs():
+                    if ff.module is vis.module and ff.node.name == nm:
+                        ps = [a.arg for a in ff.node.args.args if a.arg not in ("self", "cls")]
+                        st_ = [x for x in ff.node.body if not (isinstance(x, ast.Expr) and isinstance(x.value, ast.Constant))]
+                        if len(ps) == 2 and len(st_) == 1 and isinstance(st_[0], ast.Return) and isinstance(st_[0].value, ast.BinOp) and isinstance(st_[0].value.op, ast.BitAnd):
+                            ok = src(st_[0].value.left) == ps[0] and src(st_[0].value.right) == ps[1]
     chk.require(ok, "launcherfinder.parser:Visitor.visit_one_spec", "terms joined by `&` in the text must be combined with `&` (left to right)", chk.loc(vis.module, f1.node))
     f2 = vis.methods["visit_cuda"]
-    ts = path_traces(f2.node, alpha=False)
+    ts = path_traces(f2.node, alpha=False, pathsens=True)
     ends = {}
     for t_ in ts:
         c = dict(t_.conds)
